@@ -190,6 +190,30 @@ def analyse(model: IterModel) -> List[Obligation]:
         f, b = cursor(st, model.front), cursor(st, model.back)
         add("O3", w, "stays exhausted: idx' + back_idx' >= N", f is not None and b is not None and entails(st.cons, f + b - N), "idx'=%s back'=%s" % (f, b))
         inv_at(st, w)
+    # ---------------- nth_back (only if the derive overrides it; otherwise core's default built on next_back applies) ----------------
+    if "nth_back" in model.methods and model.methods["nth_back"].get("mir"):
+        ip, rets, i0, b0, n = run("nth_back", True, lambda i0, b0, n: [N - (i0 + n + one + b0)], "items remain")
+        add("O3", "nth_back [items remain]", "some return is reachable", bool(rets) or (model.N == 0 and not model.symbolic))
+        for st in rets:
+            r = result(st)
+            w = "nth_back [items remain]"
+            if r and r[0] == "get":
+                add("O3", w, "yields get(N - back_idx - n - 1)", entails_eq(st.cons, r[1], N - b0 - n - one), "argument %s" % (r[1],))
+                f, b = cursor(st, model.front), cursor(st, model.back)
+                add("O3", w, "back_idx' = back_idx + n + 1", b is not None and entails_eq(st.cons, b, b0 + n + one), "back' = %s" % (b,))
+                add("O3", w, "idx' = idx", f is not None and entails_eq(st.cons, f, i0), "idx' = %s" % (f,))
+            else:
+                add("O3", w, "yields an item (the None edge is infeasible)", False, "result %s" % (r[:3] if r else r,))
+            inv_at(st, w)
+        ip, rets, i0, b0, n = run("nth_back", True, lambda i0, b0, n: [(i0 + n + one + b0) - N - one], "past the end")
+        add("O3", "nth_back [past the end]", "some return is reachable", bool(rets))
+        for st in rets:
+            r = result(st)
+            w = "nth_back [past the end]"
+            add("O3", w, "returns None (the get edge is infeasible)", is_none(r), "result %s" % (r[:3] if r else r,))
+            f, b = cursor(st, model.front), cursor(st, model.back)
+            add("O3", w, "exhausts the iterator: idx' + back_idx' >= N", f is not None and b is not None and entails(st.cons, f + b - N), "idx'=%s back'=%s" % (f, b))
+            inv_at(st, w)
     # ---------------- size_hint ----------------
     for case, extra, want in (("remaining > 0", lambda i0, b0, n: [N - one - (i0 + b0)], lambda i0, b0: N - i0 - b0),
                               ("remaining = 0", lambda i0, b0, n: [(i0 + b0) - N], lambda i0, b0: Lin.const(0))):
@@ -338,6 +362,11 @@ def type_witnesses() -> Tuple[List[Violation], dict]:
             targets["pos_%s_%s" % (nm, pn)] = pre + decl + "fn main() { assert_send_sync::<%s>(); }\n" % (it_ty % payload)
             targets["neg_%s_%s" % (nm, pn)] = pre + decl + "fn main() { assert_send_sync::<%s>(); }\n" % (en_ty % payload)
     targets["pos_plain"] = pre + "#[derive(EnumIter, Debug)]\nenum Plain { A, B }\nfn main() { assert_send_sync::<PlainIter>(); }\n"
+    for pn, payload in (("rc", "Rc<u8>"), ("cell", "Cell<u8>"), ("refcell", "std::cell::RefCell<u8>")):
+        decl = "#[derive(EnumIter, Debug)]\nenum Holder { A(%s), B { x: %s }, C }\n" % (payload, payload)
+        targets["pos_payload_%s" % pn] = pre + decl + "fn main() { assert_send_sync::<HolderIter>(); }\n"
+        targets["neg_payload_%s" % pn] = pre + decl + "fn main() { assert_send_sync::<Holder>(); }\n"
+    targets["pos_const_generic"] = pre + "#[derive(EnumIter, Debug)]\nenum Cg<const N: usize> { A(std::marker::PhantomData<[Rc<u8>; N]>), B }\nfn main() { assert_send_sync::<CgIter<3>>(); }\n"
     diags, built = witness.check_targets("c05types", targets)
     out: List[Violation] = []
     n = 0
@@ -394,6 +423,19 @@ def C05(infos: List[EnumInfo], ctx: dict):
                                      "C05:%s:%s:%s" % (o.kind, method, cause),
                                      "%s in %s: not entailed: %s (%s)" % (o.kind, o.where, o.text, o.detail[:200]),
                                      where(info, "EnumIter", {"N": model.N, "method": method, "case": case, "obligation": o.text, "detail": o.detail[:600]})))
+        # every method the derive overrides in the Iterator-family impls must be one engine A has a specification for;
+        # an unspecified override (fold, count, last, advance_by ..) would replace core's default built on next/nth/next_back
+        SPECIFIED = {"next", "nth", "size_hint", "next_back", "nth_back", "len", "clone", "fmt", "get", "iter"}
+        for imp in g.items:
+            if imp["item"] != "impl" or not imp.get("trait"):
+                continue
+            tp = imp["trait"]["path"]
+            if tp.startswith("core::iter::") and imp["self_ty"].get("adt") == it.iter_def:
+                for a in imp.get("assoc", []):
+                    if a["kind"] == "fn" and a["name"] not in SPECIFIED:
+                        out.append(Violation("C05", "every iterator method the derive overrides has a cursor specification that engine A discharges",
+                                             "C05:unspecified-override:%s" % a["name"], "%s overrides %s::%s, for which no specification is checked" % (it.struct["name"], tp.split("::")[-1], a["name"]),
+                                             where(info, "EnumIter", {"method": a["name"]})))
         # premise of O4: get(0..N) is the list of enabled variants (dense, distinct, in order) -- shared with C04
         keys = [k for k, _ in it.entries]
         en = es.enabled()
